@@ -96,6 +96,26 @@ def write_shape(ctx):
                 and unparse(s.value.args[2]) == unparse(st.target):
             # i = where(mask, 0, i): elementwise either zero or unchanged
             ok = True
+        elif isinstance(s, ast.Assign) and isinstance(s.value, ast.Call) \
+                and unparse(s.value.func) == 'np.where' and \
+                len(s.value.args) == 3 and (
+                    const_of(s.value.args[1]) == 0 or
+                    const_of(s.value.args[2]) == 0):
+            # i = where(mask, 0, i * f): elementwise zero or a multiple of
+            # the old value
+            other = s.value.args[2] if const_of(s.value.args[1]) == 0 \
+                else s.value.args[1]
+            try:
+                ev = Ev()
+                key = ev.key(st.target)
+                v = ev.ev(other)
+                ok = bool(v.n.d) and all(dict(k).get(key, 0) >= 1
+                                         for k in v.n.d) and \
+                    key not in v.d.atoms()
+            except Inconclusive:
+                ok = False
+            why = 'the non-zero arm of the masked store is not a multiple ' \
+                  'of the old intensity'
         elif isinstance(s, ast.Assign):
             # i = i * f : the old value must divide the new one
             try:
@@ -569,5 +589,19 @@ def c02_lossless_without_k(ctx):
     return _r(ctx)
 
 
-RULES = [c02_lossless_without_k, index_edit, c17_coating_media, derived_sync_rule, c12_arg_names, no_stale, wmw_intensity, write_shape, beer_lambert, lost_write, aperture,
+def c17_pol_entries(ctx):
+    """shared with C17: intensities reported for polarized rays (both trace
+    entries; dark rays stay dark)"""
+    from .C17 import pol_entries as _r
+    return _r(ctx)
+
+
+def c07_aperture_scaled_once(ctx):
+    """shared with C07: a ray landing outside the (scaled) physical aperture
+    has zero intensity - the aperture must be the prescribed one"""
+    from .C07 import aperture_scaled_once as _r
+    return _r(ctx)
+
+
+RULES = [c07_aperture_scaled_once, c17_pol_entries, c02_lossless_without_k, index_edit, c17_coating_media, derived_sync_rule, c12_arg_names, no_stale, wmw_intensity, write_shape, beer_lambert, lost_write, aperture,
          coating_pair, record_intensity]
